@@ -418,6 +418,19 @@ func c10History(kind, a, b int) core.Result {
 		}
 		return core.Okay(true, o2)
 	}
+	if kind == 2 {
+		dir := fsFreshDir("c10names")
+		fsPut(dir, "partials/row.twig", "row {{ x }}")
+		fsPut(dir, "partials/box.twig", "box[{% block a %}a{% endblock %}]")
+		ref := []string{"'partials/row.twig'", "'./partials/row.twig'", "'/partials/row.twig'", "'partials/../partials/row.twig'", "'partials//row.twig'", "d ~ '/row.twig'", "d2 ~ 'row.twig'"}[a]
+		src := "<{% include " + ref + " %}|{% embed " + strings.Replace(ref, "row.twig", "box.twig", 1) + " %}{% block a %}o{{ x }}{% endblock %}{% endembed %}>"
+		fsPut(dir, "main.twig", src)
+		out, err, pan := tryExec(stick.New(stick.NewFilesystemLoader(dir)), "main.twig", map[string]stick.Value{"x": 1, "d": "partials", "d2": "partials/"})
+		if pan != "" || err != nil || out != "<row 1|box[o1]>" {
+			return core.Violation("isolation", fmt.Sprintf("filesystem loader: %q renders %q (%v %s), want %q", src, out, err, pan, "<row 1|box[o1]>"))
+		}
+		return core.Okay(true, out)
+	}
 	tpls := map[string]string{"bad": "x{{ nofunc() }}", "good": "G{{ x }}", "base": "B[{% block a %}b{% endblock %}]",
 		"failing": []string{"{% include 'bad' %}", "{% embed 'bad' %}{% endembed %}", "{% include 'deep1' %}"}[b%3],
 		"ok":      "<{% include 'good' %}|{% embed 'base' %}{% block a %}o{{ x }}{% endblock %}{% endembed %}>"}
@@ -515,6 +528,9 @@ func c10Levels(tier string) []core.Level {
 				for b := 0; b < 2; b++ {
 					emit(core.Case{Fam: "history", N: []int{0, a, b}})
 				}
+			}
+			for a := 0; a < 7; a++ {
+				emit(core.Case{Fam: "history", N: []int{2, a, 0}}) // (no history: 7 spellings of an included / embedded file's path)
 			}
 			for _, n := range append(seq(1, 130), 250, 1000) {
 				for b := 0; b < 3; b++ {
